@@ -44,6 +44,7 @@ def required_cells(tier):
     req["pose:base-or-faces-moved-into-place"] = 100 if q else 2000
     req["body:minus1-minus2-slab"] = 30 if q else 600
     req["body:tiny(edges<=1/2)"] = 30 if q else 600
+    req["polygon:vertices-on-a-circle-about-their-centroid"] = 30 if q else 600
     req["history:hash-alike-twin-measured-first"] = 30 if q else 600
     req["perm:exhaustive-polygon"] = 100
     req["orient:exhaustive-polyhedron"] = 100
@@ -68,6 +69,8 @@ def cases(rng, budget, widx, nworkers, tier):
             yield c_
         elif r < 0.45:
             d = gen.rand_obj(rng, "PG")
+            if rng.random() < 0.12:
+                d = gen.cyclic_polygon(rng) or d       # all vertices on one circle about their centroid, not regular
             if nt == "int" and not _integral(d):
                 nt = "Fraction"
             m = len(d[1])
@@ -82,6 +85,8 @@ def cases(rng, budget, widx, nworkers, tier):
                     yield _with_move({"k": "PG", "d": d, "nt": nt, "order": p}, rng)
         elif r < 0.7:
             d = gen.rand_obj(rng, "PG")
+            if rng.random() < 0.12:
+                d = gen.cyclic_polygon(rng) or d
             n = K.polygon_normal(d[1])
             apex = gen.rpt(rng, 4, (1, 2))
             if K.dot(n, K.sub(apex, d[1][0])) == 0:
@@ -290,6 +295,10 @@ def judge(case):
         vs = d[1]
         order = case.get("order") or list(range(len(vs)))
         mu.cell("kind:PG/%d" % len(vs))
+        if len(vs) >= 5:
+            cx = K.centroid(vs)
+            if len({K.dot(K.sub(v, cx), K.sub(v, cx)) for v in vs}) == 1:
+                mu.cell("polygon:vertices-on-a-circle-about-their-centroid")
         if case.get("exh"):
             mu.cell("perm:exhaustive-polygon")
         if case.get("mv") and k == "PG":
